@@ -2,11 +2,12 @@
     buffer with at least two different bytes the table of [build_from_data], the description [write_table] writes for
     the weights it derives back from the code lengths (the direct form for up to 16 written weights, the
     FSE-compressed form above that) and the four streams coded with that table form a section the decoder reads back
-    as exactly the literals.  For the FSE-compressed form two facts about the compressor remain hypotheses: the
-    normaliser returns a distribution for the histogram of the weights, and the compressed description is shorter than
-    128 bytes (the compressor asserts it). *)
+    as exactly the literals.  For the FSE-compressed form one fact about the compressor remains a hypothesis: the
+    compressed description is shorter than 128 bytes (the compressor asserts it; the header byte could not express
+    more).  That the normaliser returns a distribution for the histogram of the weights and that it has a table
+    description is proved ([weight_description_exists]). *)
 Require Import Zrs.lib.RsPrelude Zrs.gen.Generated Zrs.model.Headers Zrs.model.BitIO Zrs.model.BitStream Zrs.model.FseDec Zrs.model.HufDec Zrs.model.BlockDec Zrs.model.LitEnc Zrs.model.BlockEnc Zrs.model.HufEnc Zrs.model.SeqEnc Zrs.model.FseEnc Zrs.model.FseNorm Zrs.model.WeightEnc Zrs.model.HufCounts.
-Require Import Zrs.proofs.C02_Concrete Zrs.proofs.C02_O2Huffman Zrs.proofs.C13_Direct Zrs.proofs.C13_WeightModel Zrs.proofs.C02_O2Counts.
+Require Import Zrs.proofs.C02_Concrete Zrs.proofs.C02_O2Huffman Zrs.proofs.C13_Direct Zrs.proofs.C13_WeightModel Zrs.proofs.C13_WeightTotal Zrs.proofs.C02_O2Counts.
 Open Scope Z_scope.
 
 Lemma nth_removelast (l : list Z) i : (S i < length l)%nat -> nth i (removelast l) 0 = nth i l 0.
@@ -30,9 +31,9 @@ Theorem compressor_huffman_section data a b h :
        let payload := direct_desc written ++ huf4_bytes (code_fn codes) data in
        zlen payload < zlen data ->
        exists t, lit_ok h data (huf_lit_header 2 (zlen data) (zlen payload)) payload t) /\
-    (forall al probs d, (16 < length written)%nat -> t_max_symbol (ht_fse h) = 255 ->
-       norm_counts (weight_hist written) 6 true = ROk (al, probs) -> desc_bytes al probs = Some d ->
-       exists D, fse_build_from_probabilities (ht_fse h) al probs = ROk D /\
+    ((16 < length written)%nat -> t_max_symbol (ht_fse h) = 255 ->
+       exists al probs d D, norm_counts (weight_hist written) 6 true = ROk (al, probs) /\ desc_bytes al probs = Some d /\
+         fse_build_from_probabilities (ht_fse h) al probs = ROk D /\
          let stream := stream_bytes (weight_fields (enc_of_dec D) written) in
          let hb := zlen d + zlen stream in
          hb < 128 ->
@@ -57,7 +58,7 @@ Proof.
   - intros Hfew Hshort.
     apply (Hall h (direct_desc (removelast W)) (ht_fse h)); [|exact Hshort].
     rewrite (direct_description_roundtrip h (removelast W) _ ltac:(rewrite LR; lia) Hw16). reflexivity.
-  - intros al probs d Hmany Hsym Hnorm Hdesc.
+  - intros Hmany Hsym.
     (* one of the two symbols is not the last one, so a written weight is positive *)
     assert (Hz : 1 <= zmax_list (removelast W)).
     { assert (exists s, In s data /\ s < mx) as (s & Hs & Hlt).
@@ -65,9 +66,11 @@ Proof.
       pose proof (Hrange s Hs). pose proof (Hpos s Hs) as Hp. rewrite <- (nth_removelast W) in Hp by lia.
       assert (In (nth (Z.to_nat s) (removelast W) 0) (removelast W)) by (apply nth_In; lia).
       pose proof (zmax_ge _ _ H0). lia. }
+    assert (Hw11 : Forall (fun w => 0 <= w <= 11) (removelast W)) by (apply removelast_forall; exact H11).
+    destruct (weight_description_exists (removelast W) ltac:(lia) Hw11 Hz) as (al & probs & d & Hnorm & Hdesc).
     destruct (model_weight_description_roundtrip h (removelast W) al probs d (huf4_bytes (code_fn codes) data) Hsym ltac:(rewrite LR; lia)
                 ltac:(eapply Forall_impl; [|exact Hw16]; cbn; intros; lia) Hz Hnorm Hdesc) as (D & ED & Hread).
-    exists D. split; [exact ED|]. cbv zeta in Hread |- *. intros Hhb Hshort.
+    exists al, probs, d, D. split; [exact Hnorm|]. split; [exact Hdesc|]. split; [exact ED|]. cbv zeta in Hread |- *. intros Hhb Hshort.
     apply (Hall h (zlen d + zlen (stream_bytes (weight_fields (enc_of_dec D) (removelast W))) :: d ++ stream_bytes (weight_fields (enc_of_dec D) (removelast W))) D); [|exact Hshort].
     cbn [app]. rewrite <- app_assoc. rewrite (Hread Hhb). f_equal. f_equal. unfold zlen. cbn [length]. rewrite app_length. lia.
 Qed.
